@@ -99,7 +99,7 @@ fn parse(text: &str, allow_substvar: bool) -> Parse {
                     Some(IDENT) | Some(COLON) => {
                         self.bump();
                     }
-                    Some(R_CURLY) => {
+                    Some(R_CURLY) | None => {
                         break;
                     }
                     e => {
@@ -246,6 +246,10 @@ fn parse(text: &str, allow_substvar: bool) -> Parse {
                         }
                         Some(R_BRACKET) => {
                             self.bump();
+                            break;
+                        }
+                        None => {
+                            self.error("Expected architecture name or '!' or ']'".to_string());
                             break;
                         }
                         _ => {
